@@ -93,7 +93,12 @@ func (db *DB) VerifCollectGarbage(capacity uint64) (collected uint64, done bool,
 			restore()
 			user()
 		}
-		defer func() { testHookGCIteratorDone = user }()
+		defer func() {
+			// keep the hook cleared if the caller cleared it from inside
+			if testHookGCIteratorDone != nil {
+				testHookGCIteratorDone = user
+			}
+		}()
 	}
 	return db.collectGarbage()
 }
